@@ -48,6 +48,8 @@ def ns_scenario(seed, n, profile="swarm"):
         model = {"name": "gauss_quantised", "dims": 2}
     elif mk < 0.62:
         model = {"name": "gauss_sloppy_prior", "dims": dims}
+    elif mk < 0.70:
+        model = {"name": "gauss_x0only", "dims": 2}
     nlive = r.choice([10, 15, 20, 30, 40, 60])
     kwargs.update(nlive=nlive, seed=R.seed32(seed, "run-seed", n), plot=False,
                   stopping=r.choice([0.1, 0.5, 1.0, 0.05]))
@@ -73,7 +75,7 @@ def ns_scenario(seed, n, profile="swarm"):
     elif pc < 0.22 and profile != "noclustering" and nlive >= 20:
         # faiss k-means needs at least 16 training points
         kwargs["flow_proposal_class"] = "ClusteringFlowProposal"
-    if pc >= 0.22 and pc < 0.32 and mk >= 0.62:
+    if pc >= 0.22 and pc < 0.32 and mk >= 0.70:
         # gravitational-wave proposals with their default reparameterisations (no optional dependency needed)
         kwargs["flow_proposal_class"] = r.choice(["GWFlowProposal", "GWFlowProposal", "AugmentedGWFlowProposal"])
         model = {"name": "gauss_gw", "dims": r.choice([3, 4, 5])}
@@ -114,7 +116,8 @@ def ns_scenario(seed, n, profile="swarm"):
         kwargs["reparameterisations"] = {"rescaletobounds": {"parameters": names, "update_bounds": True}}
     elif rp < 0.55:
         kwargs["reparameterisations"] = {"null": {"parameters": names}}
-    elif rp < 0.68 and model["name"] in ("gauss", "gauss_quantised", "gauss_sloppy_prior"):
+    elif (rp < 0.68 or model["name"] == "gauss_x0only") and model["name"] in (
+            "gauss", "gauss_quantised", "gauss_sloppy_prior", "gauss_x0only"):
         # uniform priors: rejection sampling in the rescaled space with the prime prior (no bounds check there)
         kwargs["reparameterisations"] = {"rescaletobounds": {"parameters": names, "update_bounds": True,
                                                              "prior": "uniform"}}
